@@ -20,6 +20,7 @@ type Runner struct {
 	NoReset  bool // keep counting backend calls across CommitStart (sweeps count from Begin)
 	OpGate   bool // every API operation is a scheduling point too (concurrent histories)
 	Deadline bool // give every transaction a context deadline of MaxTime + 3 s (the caller's deadline of C15)
+	Budget   bool // record the duration of Commit and the budget min(deadline, maxTime) in CommitEnd
 	obsN     int
 }
 
@@ -187,8 +188,14 @@ func (r *Runner) End(ctx context.Context, lt *LiveTxn) bool {
 	if !r.NoReset {
 		r.Env.Hub.ResetCounts(lt.Label)
 	}
+	t0 := time.Now()
 	err := lt.T.Commit(ctx)
-	r.Rec.Add(Ev{Ev: "CommitEnd", T: lt.Label, Ok: err == nil, Note: errs(err), N: r.Env.Hub.Count(lt.Label)})
+	ce := Ev{Ev: "CommitEnd", T: lt.Label, Ok: err == nil, Note: errs(err), N: r.Env.Hub.Count(lt.Label)}
+	if r.Budget {
+		ce.Ms = int(time.Since(t0).Milliseconds())
+		ce.Budget = int(r.MaxTime.Milliseconds())
+	}
+	r.Rec.Add(ce)
 	r.Env.Hub.Emit(decor.Event{Txn: lt.Label, Ev: "End", Res: map[string]any{"ok": err == nil}})
 	return err == nil
 }
@@ -215,7 +222,7 @@ func (r *Runner) Observe(ctx context.Context, p *Program) error {
 func (r *Runner) RunTxn(ctx context.Context, label string, p *Program, spec TxnSpec, fault *decor.Fault) (bool, error) {
 	if r.Deadline {
 		var cancel context.CancelFunc
-		ctx, cancel = context.WithTimeout(ctx, r.MaxTime+3*time.Second)
+		ctx, cancel = context.WithTimeout(ctx, r.MaxTime+time.Duration(envInt("VERIF_DEADLINE_EXTRA_MS", 3000))*time.Millisecond)
 		defer cancel()
 	}
 	lt, err := r.BeginTxn(ctx, label, p, spec)
